@@ -5,7 +5,7 @@ import datetime as dt
 import decimal
 import uuid
 
-from .prog import IntEnumU, StrEnumU
+from .prog import IntEnumU, MixIntEnumU, MixStrEnumU, PlainIntEnumU, StrEnumU
 
 HOSTILE_ATOMS = ["'", "''", "\\", "\\'", "\\\\", '"', '""', "`", "--", "-- ", "/*", "*/", "#", "?", "%s", "%%", "$1", ":x",
                  "\n", "\r", "\t", "\0", "\\Z", "\\n", "\\0", ";", "(", ")", ",", "\U0001F600", "é", "é", "‏",
@@ -50,7 +50,8 @@ TIME_VALUES = [dt.time(1, 2, 3), dt.time(23, 59, 59, 999999), dt.time(4, 5, 6, t
 DATETIME_VALUES = [dt.datetime(2020, 1, 2, 3, 4, 5), dt.datetime(2021, 12, 31, 23, 59, 59, 123456),
                    dt.datetime(2020, 6, 1, 12, 0, tzinfo=TZ), dt.datetime(1999, 1, 1, tzinfo=dt.timezone.utc)]
 UUID_VALUES = [uuid.UUID(int=0), uuid.UUID("12345678-1234-5678-1234-567812345678")]
-ENUM_VALUES = [StrEnumU.plain, StrEnumU.quote, IntEnumU.one, IntEnumU.neg]
+ENUM_VALUES = [StrEnumU.plain, StrEnumU.quote, IntEnumU.one, IntEnumU.neg, MixIntEnumU.low, MixIntEnumU.high, MixStrEnumU.red,
+               MixStrEnumU.quote, PlainIntEnumU.three, PlainIntEnumU.minus]
 JSON_VALUES = [
     {"k": "v"}, [1, 2, 3], [], {}, {"a": {"b": [1, None, True, 2.5]}}, ["it's"], {"it's": "a'b"}, {"k": "back\\slash"},
     ['say "hi"'], {"q": "a\"b'c"}, ["new\nline"], {"u": "\U0001F600"}, [[["deep"]]], {"n": None, "t": True, "f": False},
@@ -121,6 +122,7 @@ NAME_CLASSES = [
     ("comment-open", "a/*b"), ("qmark", "a?b"), ("percent-s", "a%sb"), ("dollar", "a$1"), ("unicode", "naïve_列"),
     ("non-bmp", "t\U0001F600"), ("digit-start", "1abc"), ("semicolon", "a;b"), ("paren", "a(b)"), ("comma", "a,b"),
     ("bracket", "a[b]"), ("long-31", "monthly_customer_invoice_totals"), ("long-64", "n" * 64), ("long-200", "very_long_name_" * 13 + "tail"),
+    ("len-1", "q"), ("len-2", "zq"), ("len-2-digit", "k7"), ("len-3", "zqv"),
     ("only-dquote", '"'), ("only-backtick", "`"), ("trailing-dquote", 'ab"'), ("newline", "a\nb"),
 ]
 
